@@ -56,7 +56,13 @@ def _gen_dir(rng):
         name = rng.choice(["a.zo", "A.zo", "b.zo", "sub/c.zo", "sub/deep/d.zo", "e_f.zo", "e-f.zo", "eXf.zo", "p%q.zo", "pABq.zo"])
         while name in pages:
             name = "x" + name
-        pages[name] = G.render(ap)[0]
+        text = G.render(ap)[0]
+        if rng.random() < 0.3:
+            # ASCII control characters that str.splitlines() treats as line boundaries but the lexer does not
+            lines = text.split("\n")
+            lines[0] = lines[0] + rng.choice([" \x0c", " \x0b", " \x1c", " \x0c x"])  # in the title line
+            text = "\n".join(lines)
+        pages[name] = text
     return pages
 
 
